@@ -195,7 +195,7 @@ pub fn check(s: &'static dyn Proto, c: &Case, st: &mut Stats, _k: &KnownFindings
 }
 
 pub const BUDGET: Budget = Budget {
-    quick: (96, 40, 16),
+    quick: (400, 160, 60),
     thorough: (500, 150, 50),
     shrink: 60,
 };
